@@ -4,7 +4,8 @@ process_level: the tie nobody else provides — the BUILT cmd/gnmi_collector and
 the working tree, driven by go/ve2e against in-process TLS targets on loopback ports; what the
 CLI prints (three equivalent invocations per target) and what a client-library STREAM client
 holds are compared with the expected tree the Lean model (driver component `e2e`) computes for
-the same scenario.  Scenarios: corpus/C01/proc_*.ops (always) + seeded generation (`vcorr gen -c
+the same scenario (the CLI's output with the model's displayed tree, op `e2e cli`: the leaves of the
+pathmap `cli.displayWalk` builds; the STREAM client with the model's client leaves, op `e2e new`).  Scenarios: corpus/C01/proc_*.ops (always) + seeded generation (`vcorr gen -c
 e2e -profile proc`, thorough tier), restricted to scenarios inside the hypotheses of
 C01.pipeline_faithful (driver op `e2e wf`).
 
@@ -146,6 +147,10 @@ def process_level(ctx, cfg, only=None):
     lines = [l for _, l in scs]
     exports, _ = vcheck.run_lines([vcorr, "run"], [l.replace("e2e new", "e2e export", 1) for l in lines], env=vcheck.GOENV)
     once = _model([_with_client(l, "once") for l in lines])
+    # what the model's gnmi_cli displays (driver op `e2e cli`): the leaves of the pathmap cli.displayWalk builds with
+    # pathmap.add over WalkSorted of the ONCE client (Pipeline.Client.cliGroupSorted; C01.cli_group_display_faithful,
+    # C01.cli_sorted_shows_leaves) - the expected output of the three CLI routes
+    cli = _model([_with_client(l, "once").replace("e2e new", "e2e cli", 1) for l in lines])
     s0 = _model([_with_client(l, "stream:0") for l in lines])
     sn = _model([_with_client(l, "stream:%d" % _n_items(l)) for l in lines])
     spec = []
@@ -158,7 +163,14 @@ def process_level(ctx, cfg, only=None):
         # the client-library STREAM client subscribes while the data flows: its final view is
         # compared only where the model says the subscription point does not matter
         same = _leaves_only(once[i][0]) == _leaves_only(s0[i][0]) == _leaves_only(sn[i][0])
-        spec.append({"id": sid, "export": ex, "expected_once": once[i][0], "expected_stream": once[i][0] if same else ""})
+        shows = cli[i][0] == once[i][0]
+        ctx.obligations.append(("model, scenario %s: the tree gnmi_cli displays (displayWalk / pathmap.add) has exactly the "
+                                "ONCE client's leaves" % sid, shows, cli[i][0][:200]))
+        if not shows:
+            ctx.problems.append(("proof", "scenario %s: the model's displayed tree differs from the model's client leaves "
+                                 "(C01.cli_sorted_shows_leaves says it cannot):\n  cli : %s\n  once: %s"
+                                 % (sid, cli[i][0][:600], once[i][0][:600]), None))
+        spec.append({"id": sid, "export": ex, "expected_once": cli[i][0], "expected_stream": once[i][0] if same else ""})
     run_dir = os.path.join(ctx.scratch, "e2e")
     os.makedirs(run_dir, exist_ok=True)
     specf = os.path.join(ctx.scratch, "e2e-scenarios.json")
